@@ -70,6 +70,15 @@ type Cell struct {
 	// Plugins "" : both peers carry the plug-in | "sender-only" / "receiver-only": outside the property's premise,
 	// executed for the record only (counters, no verdicts)
 	Plugins string `json:"plugins,omitempty"`
+	// Flavour "app-swap": the application keeps entries of its own in the swap of a session that carries the
+	// plug-in. AppKey: label of the one key it uses (appKeys) or of a key set ("set:..."); AppSide: which end
+	// holds the entries (sender | receiver | both); AppVia: how they get there (session-plugin: a PostAccept /
+	// PostDial plug-in of the application stores them in Session.Swap() | session-code: plain code stores them
+	// in Session.Swap() after the connection is up | ctx-plugin: a plug-in of the application stores them in the
+	// swap of every context, in the header-read and pre-write hooks)
+	AppKey  string `json:"app_key,omitempty"`
+	AppSide string `json:"app_side,omitempty"`
+	AppVia  string `json:"app_via,omitempty"`
 }
 
 var (
@@ -133,7 +142,218 @@ func cells(tierName string) []Cell {
 			}
 		}
 	}
+	// application data in the swap of a session that carries the plug-in: every key of the pool alone (short
+	// strings, among them "" and "0", and non-string keys) x the end that holds it x equal / different cipher
+	// keys; then whole key sets. Appended last so that the indices of the cells above stay what they were.
+	vias := []string{"session-plugin", "session-code", "ctx-plugin"}
+	eqs, diffs := []string{"eq16", "eq32", "eq24"}, []string{"diff16-32", "diff32-24", "diff16"}
+	n := 0
+	appCell := func(key, side, keys, via string) {
+		dir, sc := "a2b", "global"
+		if (n/3)%2 == 1 {
+			dir = "b2a"
+		}
+		if (n/5)%3 == 2 {
+			sc = "route"
+		}
+		out = append(out, Cell{Idx: len(out), Class: "app-swap", Proto: protoNames[n%3], Body: bodyKinds[n%5], Keys: keys, Dir: dir, Scope: sc,
+			Reps: reps, Flavour: "app-swap", AppKey: key, AppSide: side, AppVia: via})
+		n++
+	}
+	for ki, k := range appKeys {
+		for si, side := range []string{"sender", "receiver", "both"} {
+			for kc := 0; kc < 2; kc++ {
+				keys := eqs[(ki+si)%3]
+				if kc == 1 {
+					keys = diffs[(ki+si)%3]
+				}
+				if tierName == "thorough" {
+					for _, via := range vias {
+						appCell(k.label, side, keys, via)
+					}
+					continue
+				}
+				appCell(k.label, side, keys, vias[(ki+si+kc)%3])
+			}
+		}
+	}
+	for _, set := range []string{"set:strings", "set:non-strings", "set:all", "set:random", "set:random"} {
+		for si, side := range []string{"sender", "receiver", "both"} {
+			keys := eqs[si]
+			if len(out)%2 == 1 {
+				keys = diffs[si]
+			}
+			appCell(set, side, keys, vias[(n+si)%3])
+		}
+	}
 	return out
+}
+
+// ---------------------------------------------------------------------------------------------
+// application data in the swap
+
+// appKeyT is a string type of the application's own.
+type appKeyT string
+
+type appVal struct {
+	A int
+	B string
+}
+
+var appAnchor int
+
+// appKeys is the pool of keys under which the application keeps its data: short strings and the names a
+// programmer would pick, then keys that are not strings at all. All of them are comparable values.
+var appKeys = []struct {
+	label string
+	key   interface{}
+}{
+	{`str:""`, ""}, {`str:"0"`, "0"}, {`str:"1"`, "1"}, {`str:"00"`, "00"}, {`str:" "`, " "}, {`str:"a"`, "a"}, {`str:"-"`, "-"},
+	{`str:"id"`, "id"}, {`str:"user"`, "user"}, {`str:"\x00"`, "\x00"}, {`str:"true"`, "true"}, {`str:"secure"`, "secure"},
+	{`str:"rawbody"`, "rawbody"}, {`str:"encrypt_rawbody"`, "encrypt_rawbody"}, {`str:"accept_encrypt"`, "accept_encrypt"},
+	{`str:"X-Secure"`, secure.SECURE_META_KEY}, {`str:"X-Accept-Secure"`, secure.ACCEPT_SECURE_META_KEY},
+	{"int:0", 0}, {"int:1", 1}, {"int32:0", int32(0)}, {"byte:'0'", byte('0')}, {"rune:'0'", '0'}, {"float64:0", float64(0)},
+	{"bool:false", false}, {"bool:true", true}, {"struct{}", struct{}{}}, {`named-string:""`, appKeyT("")}, {`named-string:"0"`, appKeyT("0")},
+	{`array:["","0"]`, [2]string{"", "0"}}, {"pointer", &appAnchor},
+}
+
+// appValues is the pool of values (label, constructor).
+var appValues = []struct {
+	label string
+	mk    func() interface{}
+}{
+	{"string", func() interface{} { return "application data" }}, {"empty-string", func() interface{} { return "" }},
+	{"true", func() interface{} { return true }}, {"false", func() interface{} { return false }}, {"nil", func() interface{} { return nil }},
+	{"int-0", func() interface{} { return 0 }}, {"int-7", func() interface{} { return 7 }},
+	{"struct", func() interface{} { return appVal{1, "x"} }}, {"struct-pointer", func() interface{} { return &appVal{2, "y"} }},
+	{"bytes", func() interface{} { return []byte("application bytes") }}, {"map", func() interface{} { return map[string]int{"n": 1} }},
+	{"string-pointer", func() interface{} { return new(string) }}, {"envelope-pointer", func() interface{} { return new(secure.Encrypt) }},
+}
+
+type appEntry struct {
+	label string // "<key label>=<value label>"
+	key   interface{}
+	val   interface{}
+}
+
+// appEntriesFor: the entries the application of this cell keeps (the values, and the members of a random set,
+// are drawn from the cell's PRNG).
+func appEntriesFor(c Cell, r *core.Rand) []appEntry {
+	var out []appEntry
+	add := func(i int) {
+		v := appValues[r.Intn(len(appValues))]
+		out = append(out, appEntry{appKeys[i].label + "=" + v.label, appKeys[i].key, v.mk()})
+	}
+	isStr := func(i int) bool { return strings.HasPrefix(appKeys[i].label, "str:") }
+	switch c.AppKey {
+	case "set:strings", "set:non-strings", "set:all":
+		for i := range appKeys {
+			if c.AppKey == "set:all" || isStr(i) == (c.AppKey == "set:strings") {
+				add(i)
+			}
+		}
+	case "set:random":
+		for k := 2 + r.Intn(5); k > 0; k-- {
+			add(r.Intn(len(appKeys)))
+		}
+	default:
+		for i := range appKeys {
+			if appKeys[i].label == c.AppKey {
+				add(i)
+			}
+		}
+		if len(out) == 0 {
+			core.Fatalf("app-swap cell %d: unknown key label %q", c.Idx, c.AppKey)
+		}
+	}
+	return out
+}
+
+// appPlugin is a plug-in of the application that keeps the application's entries in the swap.
+type appPlugin struct {
+	entries []appEntry
+	session bool // in the session swap, stored when the session is set up
+	ctx     bool // in the swap of every context, stored when a header was read / before a message is written
+	stores  int64
+}
+
+func (a *appPlugin) Name() string { return "c17-app-data" }
+
+func (a *appPlugin) put(m goutil.Map) *erpc.Status {
+	for _, e := range a.entries {
+		m.Store(e.key, e.val)
+	}
+	atomic.AddInt64(&a.stores, int64(len(a.entries)))
+	return nil
+}
+
+func (a *appPlugin) onSession(s erpc.PreSession) *erpc.Status {
+	if a.session {
+		a.put(s.Swap())
+	}
+	return nil
+}
+
+func (a *appPlugin) onCtx(m goutil.Map) *erpc.Status {
+	if a.ctx {
+		a.put(m)
+	}
+	return nil
+}
+
+func (a *appPlugin) PostAccept(s erpc.PreSession) *erpc.Status       { return a.onSession(s) }
+func (a *appPlugin) PostDial(s erpc.PreSession, _ bool) *erpc.Status { return a.onSession(s) }
+func (a *appPlugin) PostReadCallHeader(c erpc.ReadCtx) *erpc.Status  { return a.onCtx(c.Swap()) }
+func (a *appPlugin) PostReadPushHeader(c erpc.ReadCtx) *erpc.Status  { return a.onCtx(c.Swap()) }
+func (a *appPlugin) PostReadReplyHeader(c erpc.ReadCtx) *erpc.Status { return a.onCtx(c.Swap()) }
+func (a *appPlugin) PreWriteCall(c erpc.WriteCtx) *erpc.Status       { return a.onCtx(c.Swap()) }
+func (a *appPlugin) PreWritePush(c erpc.WriteCtx) *erpc.Status       { return a.onCtx(c.Swap()) }
+func (a *appPlugin) PreWriteReply(c erpc.WriteCtx) *erpc.Status      { return a.onCtx(c.Swap()) }
+
+var (
+	_ erpc.PostAcceptPlugin          = (*appPlugin)(nil)
+	_ erpc.PostDialPlugin            = (*appPlugin)(nil)
+	_ erpc.PostReadCallHeaderPlugin  = (*appPlugin)(nil)
+	_ erpc.PostReadPushHeaderPlugin  = (*appPlugin)(nil)
+	_ erpc.PostReadReplyHeaderPlugin = (*appPlugin)(nil)
+	_ erpc.PreWriteCallPlugin        = (*appPlugin)(nil)
+	_ erpc.PreWritePushPlugin        = (*appPlugin)(nil)
+	_ erpc.PreWriteReplyPlugin       = (*appPlugin)(nil)
+)
+
+// appOps: the marker matrix for calls (enforcing or not) and pushes, once per round, then bodies without content.
+func appOps(c Cell, r *core.Rand) []Op {
+	var ops []Op
+	rounds := 1
+	if c.Reps > 0 {
+		rounds = 3
+	}
+	for round := 0; round < rounds; round++ {
+		i := 0
+		for _, kind := range []string{"call", "push"} {
+			for _, m := range markers {
+				for _, enf := range []bool{false, true} {
+					if kind == "push" && enf {
+						continue
+					}
+					s := []int{40, 300, 4096}[i%3]
+					if c.Reps > 0 {
+						s = tokLen + r.Intn(8192-tokLen)
+					}
+					i++
+					ops = append(ops, Op{N: len(ops), Kind: kind, Marker: m, Enforce: enf, Size: s, SizeCl: sizeClass(s)})
+				}
+			}
+		}
+	}
+	for _, sh := range []string{"nil", "empty"} {
+		for _, kind := range []string{"call", "push"} {
+			for _, m := range []string{"none", "secure", "accept-true"} {
+				ops = append(ops, Op{N: len(ops), Kind: kind, Marker: m, Size: 0, SizeCl: "shape", Shape: sh})
+			}
+		}
+	}
+	return ops
 }
 
 func codecName(body string) string {
@@ -257,6 +477,9 @@ func shapesFor(body string) []string {
 func opsFor(c Cell, r *core.Rand) []Op {
 	if c.Flavour == "swap-nonempty" {
 		return seqOps(c, r)
+	}
+	if c.Flavour == "app-swap" {
+		return appOps(c, r)
 	}
 	if c.Plugins != "" {
 		var ops []Op
@@ -688,6 +911,8 @@ type opRec struct {
 	wantArg  interface{} // what the handler must receive (differs from arg only for a nil body)
 	wantRes  interface{} // what the caller must receive
 	gate     *concGate
+	appKeys  []interface{} // keys of the application's swap entries the handler context must show
+	appSeen  int           // how many of them the handler found in its context's swap
 
 	// observer records
 	outBody   map[string][]byte // "call" | "push" | "reply" -> body bytes handed to the protocol
@@ -716,6 +941,7 @@ func lookup(id []byte) *opRec {
 
 type metaPeeker interface {
 	PeekMeta(key string) []byte
+	Swap() goutil.Map
 }
 
 func onHandle(ctx metaPeeker, arg interface{}) *opRec {
@@ -729,6 +955,14 @@ func onHandle(ctx metaPeeker, arg interface{}) *opRec {
 	rec.gotArg = clone(arg)
 	rec.gotMeta = fmt.Sprintf("X-Secure=%q X-Accept-Secure=%q", ctx.PeekMeta(secure.SECURE_META_KEY), ctx.PeekMeta(secure.ACCEPT_SECURE_META_KEY))
 	rec.sawSec = string(ctx.PeekMeta(secure.SECURE_META_KEY))
+	if sw := ctx.Swap(); sw != nil {
+		rec.appSeen = 0
+		for _, k := range rec.appKeys {
+			if _, ok := sw.Load(k); ok {
+				rec.appSeen++
+			}
+		}
+	}
 	g := rec.gate
 	rec.mu.Unlock()
 	if g != nil {
@@ -1073,6 +1307,18 @@ type cellRun struct {
 	observeOnly bool
 	verA, verB  string // cipher versions (what the envelope of A's / B's plug-in carries)
 	stats       map[string]int64
+	appDesc     []string // flavour app-swap: the entries the application keeps in the swap (labels), who holds them, how
+}
+
+// withoutApp: the plug-ins registered on routes (the application's own plug-in is always given to the peer).
+func withoutApp(pl []erpc.Plugin) []erpc.Plugin {
+	var out []erpc.Plugin
+	for _, p := range pl {
+		if _, ok := p.(*appPlugin); !ok {
+			out = append(out, p)
+		}
+	}
+	return out
 }
 
 func (cr *cellRun) add(f finding) {
@@ -1086,7 +1332,7 @@ func (cr *cellRun) add(f finding) {
 // tag is the scenario tag appended to the marker class in fingerprints.
 func (cr *cellRun) tag(op Op) string {
 	t := ""
-	if cr.c.Flavour == "swap-nonempty" {
+	if cr.c.Flavour == "swap-nonempty" || cr.c.Flavour == "app-swap" {
 		t = "@" + cr.c.Flavour
 	}
 	if op.Phase == "concurrent" {
@@ -1123,6 +1369,9 @@ func (cr *cellRun) violate(role string, op Op, symptom, what string, w map[strin
 	}
 	w["op"] = op
 	w["cell"] = cr.c
+	if len(cr.appDesc) > 0 {
+		w["application_swap_entries"] = cr.appDesc
+	}
 	cr.add(finding{core.Violated, role, op.Marker + cr.tag(op), symptom, what, w})
 }
 
@@ -1200,18 +1449,52 @@ func runCell(id string, c Cell, seedv int64) {
 	}
 	cr.observeOnly = c.Plugins != ""
 	cr.verA, cr.verB = goutil.Md5([]byte(ka)), goutil.Md5([]byte(kb))
+	// the application's own data in the swap (flavour app-swap): which end holds it, and how it gets there
+	var appA, appB *appPlugin  // the application's plug-in of end A / B (nil: that end keeps nothing)
+	var glA, glB []erpc.Plugin // what a peer whose secure plug-in sits on its routes only gets globally
+	if c.Flavour == "app-swap" {
+		entries := appEntriesFor(c, r)
+		for _, e := range entries {
+			cr.appDesc = append(cr.appDesc, e.label)
+		}
+		cr.appDesc = append(cr.appDesc, "held by: "+c.AppSide, "stored by: "+c.AppVia)
+		mk := func() *appPlugin {
+			return &appPlugin{entries: entries, session: c.AppVia == "session-plugin", ctx: c.AppVia == "ctx-plugin"}
+		}
+		senderHas, receiverHas := c.AppSide != "receiver", c.AppSide != "sender"
+		if (c.Dir == "a2b" && senderHas) || (c.Dir == "b2a" && receiverHas) {
+			appA = mk()
+		}
+		if (c.Dir == "a2b" && receiverHas) || (c.Dir == "b2a" && senderHas) {
+			appB = mk()
+		}
+		// the application's plug-in stands before or after the secure plug-in in the peer's list
+		first := r.Intn(2) == 0
+		cr.appDesc = append(cr.appDesc, fmt.Sprintf("application plug-in listed before the secure plug-in: %v", first))
+		with := func(pl []erpc.Plugin, a *appPlugin) []erpc.Plugin {
+			if a == nil || c.AppVia == "session-code" {
+				return pl
+			}
+			if first {
+				return append([]erpc.Plugin{a}, pl...)
+			}
+			return append(append([]erpc.Plugin{}, pl...), a)
+		}
+		plA, plB = with(plA, appA), with(plB, appB)
+		glA, glB = with(nil, appA), with(nil, appB)
+	}
 	var pa, pb2 erpc.Peer
 	var rt routes
 	switch {
 	case c.Scope == "route" && c.Dir == "a2b": // B receives: plug-in only on B's routes
 		pa = erpc.NewPeer(erpc.PeerConfig{}, plA...)
-		pb2 = erpc.NewPeer(erpc.PeerConfig{})
+		pb2 = erpc.NewPeer(erpc.PeerConfig{}, glB...)
 		register(pa)
-		rt = register(pb2, plB...)
+		rt = register(pb2, withoutApp(plB)...)
 	case c.Scope == "route":
-		pa = erpc.NewPeer(erpc.PeerConfig{})
+		pa = erpc.NewPeer(erpc.PeerConfig{}, glA...)
 		pb2 = erpc.NewPeer(erpc.PeerConfig{}, plB...)
-		rt = register(pa, plA...)
+		rt = register(pa, withoutApp(plA)...)
 		register(pb2)
 	default:
 		pa = erpc.NewPeer(erpc.PeerConfig{}, plA...)
@@ -1237,12 +1520,38 @@ func runCell(id string, c Cell, seedv int64) {
 		l.A.Swap().Store("c17-app-entry", "A:"+id)
 		l.B.Swap().Store("c17-app-entry", "B:"+id)
 	}
+	var wantInHandler []interface{} // keys the receiving end's handler contexts must show (workload self-check)
+	if c.Flavour == "app-swap" {
+		for end, a := range []*appPlugin{appA, appB} {
+			if a == nil {
+				continue
+			}
+			sess := []erpc.Session{l.A, l.B}[end]
+			if c.AppVia == "session-code" {
+				a.put(sess.Swap())
+			}
+			if c.AppVia != "ctx-plugin" {
+				// the precondition of the cell: the session swap really holds the entries
+				for _, e := range a.entries {
+					if _, ok := sess.Swap().Load(e.key); !ok {
+						core.Fatalf("app-swap cell %d: the session swap does not hold the entry %s after it was stored (%s)", c.Idx, e.label, c.AppVia)
+					}
+				}
+			}
+			if end != senderEnd {
+				for _, e := range a.entries {
+					wantInHandler = append(wantInHandler, e.key)
+				}
+			}
+		}
+		cr.stats["app_swap_cells"]++
+	}
 	cid := codecID(c.Body)
 	abort := ""
 	var pushes []*opRec
 
 	newRec := func(op Op) *opRec {
-		rec := &opRec{id: fmt.Sprintf("%s.%d.%d", id, *batch, op.N), op: op, enforce: op.Enforce, kind: c.Body,
+		rec := &opRec{id: fmt.Sprintf("%s.%d.%d", id, *batch, op.N), op: op, enforce: op.Enforce, kind: c.Body, appKeys: wantInHandler,
 			outBody: map[string][]byte{}, outCodec: map[string]byte{}, outSecure: map[string]string{}, outErr: map[string]string{}}
 		if op.Shape != "" {
 			rec.arg, rec.wantArg, rec.argTok = makeShape(c.Body, op.Shape, r, false)
@@ -1285,8 +1594,21 @@ func runCell(id string, c Cell, seedv int64) {
 		}
 	}
 
+	if c.Flavour == "app-swap" && c.AppVia == "session-code" {
+		// a session's reader takes the context of the next message (with its copy of the session swap) before that
+		// message arrives: one call that is not judged, so that every judged message meets the stored entries
+		wrec := newRec(Op{N: 200000, Kind: "call", Marker: "none", Size: 64, SizeCl: "small"})
+		wrec.appKeys = nil
+		if _, ok := doCall(wrec, nil); !ok {
+			abort = "the warm-up call after storing the application's swap entries did not complete within the watchdog"
+		}
+		drop(wrec)
+	}
 	ops := opsFor(c, r)
 	for _, op := range ops {
+		if abort != "" {
+			break
+		}
 		rec := newRec(op)
 		if op.Kind == "call" {
 			cmd, ok := doCall(rec, markerSettings(op.Marker))
@@ -1426,6 +1748,11 @@ func runCell(id string, c Cell, seedv int64) {
 		fmt.Fprintf(os.Stderr, "case %s: peers did not close\n", id)
 	}
 
+	for _, a := range []*appPlugin{appA, appB} {
+		if a != nil {
+			cr.stats["app_swap_entries_stored"] += atomic.LoadInt64(&a.stores)
+		}
+	}
 	// evidence
 	tp.mu.Lock()
 	core.Add("frames_tapped", tp.frames)
@@ -1450,6 +1777,9 @@ func runCell(id string, c Cell, seedv int64) {
 		core.Add(k, v)
 	}
 	sig := fmt.Sprintf("%s/%s/%s/%s/%s%s", c.Proto, c.Body, c.Keys, c.Dir, c.Scope, cr.tag(Op{}))
+	if c.Flavour == "app-swap" {
+		sig += "/" + c.AppKey + "/" + c.AppSide + "/" + c.AppVia
+	}
 	core.Sample(map[string]interface{}{"cell": c, "ops": len(ops), "messages_checked": cr.checked, "stats": cr.stats})
 
 	if abort != "" {
@@ -1765,8 +2095,25 @@ func (cr *cellRun) nontrivial(role string, op Op) {
 	}
 	core.Distinct("nontrivial", fmt.Sprintf("%s/%s%s/%s/%s/%s/%s/enf=%v/%s", role, op.Marker, cr.tag(op), cr.c.Proto, cr.c.Body, cr.c.Keys, op.SizeCl+op.Shape, op.Enforce, cr.c.Scope))
 	core.Distinct("marker_proto_codec", fmt.Sprintf("%s/%s/%s/%s", role, op.Marker, cr.c.Proto, codecName(cr.c.Body)))
+	if cr.c.Flavour == "app-swap" {
+		core.Distinct("app_swap", fmt.Sprintf("%s/%s/%s/%s/%s/%s", cr.c.AppKey, cr.c.AppSide, cr.c.AppVia, role, op.Marker, keyEq(cr.c.Keys)))
+	}
 	if op.Phase == "probe" {
 		core.Distinct("sequence_pairs", fmt.Sprintf("%s -> %s %s/%s/%s", op.After, op.Kind, op.Marker, cr.c.Proto, codecName(cr.c.Body)))
+	}
+}
+
+// appSeen records (evidence, not a verdict) whether the handler context showed the application's swap entries.
+func (cr *cellRun) appSeen(rec *opRec) {
+	if len(rec.appKeys) == 0 {
+		return
+	}
+	rec.mu.Lock()
+	seen := rec.appSeen
+	rec.mu.Unlock()
+	cr.stats["app_swap_entries_seen_by_handlers"] += int64(seen)
+	if d := len(rec.appKeys) - seen; d > 0 {
+		cr.stats["app_swap_entries_NOT_seen_by_handlers"] += int64(d)
 	}
 }
 
@@ -1775,6 +2122,13 @@ func statusText(s *erpc.Status) string {
 		return "OK"
 	}
 	return s.String()
+}
+
+func keyEq(class string) string {
+	if strings.HasPrefix(class, "eq") {
+		return "equal-keys"
+	}
+	return "different-keys"
 }
 
 func hasSecure(marker string) bool { return strings.HasPrefix(marker, "secure") }
@@ -1957,6 +2311,7 @@ func (cr *cellRun) checkCall(rec *opRec, cmd erpc.CallCmd, equalKeys bool) {
 		return
 	}
 	cr.stats["handler_args_verified"]++
+	cr.appSeen(rec)
 
 	if op.HErr {
 		// the handler answered with an error status: there is no result to restore or to hide; which status
@@ -2004,7 +2359,15 @@ func (cr *cellRun) checkCall(rec *opRec, cmd erpc.CallCmd, equalKeys bool) {
 		}
 	case "no":
 		if replySecure {
+			// the request was not encrypted, did not ask for an encrypted reply, and the handler did not enforce one:
+			// this reply is an unmarked message. It left marked X-Secure=true (set by the plug-in, nobody else
+			// touches it here), i.e. it did not pass unchanged - whatever the keys are.
 			cr.stats["unrequested_encrypted_replies"]++
+			w := base()
+			w["reply_frame_has_result_token"] = encR != ""
+			cr.violate("reply", op, "unmarked-altered", fmt.Sprintf("the reply to an unmarked request (%s, handler not enforcing) left marked %s=true although nothing asked for an encrypted reply; caller status %s",
+				op.Marker, secure.SECURE_META_KEY, statusText(stat)), w)
+			return
 		}
 	}
 	reported := false
@@ -2094,6 +2457,13 @@ func concRounds(c Cell) []concRound {
 	if c.Plugins != "" {
 		return nil
 	}
+	if c.Flavour == "app-swap" {
+		mixed := concRound{8, []string{"none", "secure", "accept-true", "none", "secure+accept-false", "accept-false", "secure+accept-true", "none"}}
+		if c.Reps == 0 {
+			return []concRound{mixed}
+		}
+		return []concRound{mixed, {2, []string{"none", "secure"}}, mixed}
+	}
 	base := []concRound{{2, []string{"secure"}}, {8, []string{"secure"}}, {2, []string{"secure+accept-true"}},
 		{8, []string{"secure", "secure+accept-true"}}, {8, []string{"secure", "none", "accept-true", "secure+accept-false"}}}
 	if c.Reps == 0 {
@@ -2166,12 +2536,19 @@ func (cr *cellRun) checkConcurrent(rec *opRec, cmd erpc.CallCmd, equalKeys bool,
 		return
 	}
 	cr.stats["handler_args_verified"]++
+	cr.appSeen(rec)
 	cr.checked++
 	cr.nontrivial("reply", op)
 	// as in the sequential check: "encrypted" is what the replying side marked on the reply
 	encrypted := false
 	if im := cmd.InputMeta(); im != nil && string(im.Peek(secure.SECURE_META_KEY)) == "true" {
 		encrypted = true
+	}
+	if expect == "no" && encrypted {
+		// nobody asked for this reply to be encrypted: it is an unmarked message, and it did not pass unchanged
+		cr.violate("reply", op, "unmarked-altered", fmt.Sprintf("%d calls in flight: the reply to an unmarked request (%s, handler not enforcing) arrived marked %s=true; caller status %s",
+			k, op.Marker, secure.SECURE_META_KEY, statusText(stat)), base())
+		return
 	}
 	if !equalKeys && encrypted {
 		cr.stats["wrong_key_replies"]++
@@ -2266,6 +2643,7 @@ func (cr *cellRun) checkPushDelivery(rec *opRec, equalKeys bool) {
 		return
 	}
 	cr.stats["handler_args_verified"]++
+	cr.appSeen(rec)
 }
 
 // ---------------------------------------------------------------------------------------------
